@@ -82,3 +82,24 @@ def corrupt(rng, b):
     for _ in range(rng.randint(1, 4)):
         if b: b[rng.randrange(len(b))] = rng.getrandbits(8)
     return bytes(b)
+
+
+def pe_file_alignment(b):
+    """FileAlignment as exe_utils would read it from the image (None when the header checks would already refuse it)"""
+    import struct
+    try:
+        pe = struct.unpack_from('<I', b, 0x3c)[0]
+        return struct.unpack_from('<I', b, pe + 4 + 20 + 36)[0]
+    except struct.error:
+        return None
+
+
+def corrupt_bounded(rng, b, limit=1 << 22):
+    """corrupt(), but never an image whose declared FileAlignment makes the real code (and the model) allocate gigabytes of
+    padding: such a case adds no arithmetic the smaller ones do not have, and a 4 GiB answer line kills the run"""
+    for _ in range(6):
+        c = corrupt(rng, b)
+        fa = pe_file_alignment(c)
+        if fa is None or fa <= limit:
+            return c
+    return b
